@@ -10,7 +10,7 @@ import datetime as dt
 import decimal
 import uuid
 
-from .prog import P, Cls, Ref, StrEnumU, IntEnumU
+from .prog import P, Cls, Ref, StrEnumU, IntEnumU, MixIntEnumU, MixStrEnumU, PlainIntEnumU
 
 COLS = ["a", "b", "c", "id"]
 TABLES = ["t1", "t2", "t3"]
@@ -60,7 +60,7 @@ def benign_const(rnd):
     if r < 0.96:
         return uuid.UUID(int=rnd.getrandbits(128))
     if r < 0.98:
-        return rnd.choice([StrEnumU.plain, IntEnumU.one])
+        return rnd.choice([StrEnumU.plain, IntEnumU.one, MixIntEnumU.high, MixStrEnumU.red, MixStrEnumU.quote, PlainIntEnumU.minus, StrEnumU.pct])
     return rnd.choice([{"k": [1, "v"]}, [1, 2], ["p", "q"]])
 
 
